@@ -136,11 +136,13 @@ def local_effects(func, typer):
                 effects.append(Effect("hook", func, n, "hook %s" % res.name))
             elif res.kind == "callback":
                 effects.append(Effect("callback", func, n, "user callback %s" % res.name))
+            elif res.kind == "unknown" and _is_logger_call(func, f):
+                continue  # diagnostics: cannot touch the tree or any state the library reads
             elif res.kind == "unknown":
                 effects.append(Effect("unknowncall", func, n, "opaque call %s" % norm(f)))
             elif res.kind == "ext":
                 if res.name not in ("re.escape", "six.text_type", "os.path.splitext", "collections.namedtuple") and not res.name.startswith(
-                        ("itertools.", "operator.", "collections.", "functools.partial", "math.")):
+                        ("itertools.", "operator.", "collections.", "functools.partial", "math.", "logging.", "warnings.")):
                     effects.append(Effect("ext", func, n, "stdlib call %s" % res.name))
             elif res.kind == "builtin":
                 if res.name in T.EFFECT_BUILTINS:
@@ -198,6 +200,15 @@ def local_effects(func, typer):
                             if isinstance(mem, Prop) and mem.getter is not None:
                                 calls.append((n, mem.getter))
     return effects, calls
+
+
+def _is_logger_call(func, f):
+    """`logger.debug(...)` with logger = logging.getLogger(...) bound at module level"""
+    if not (isinstance(f, ast.Attribute) and isinstance(f.value, ast.Name)
+            and f.attr in ("debug", "info", "warning", "error", "exception", "critical", "log", "isEnabledFor")):
+        return False
+    v = func.module.assigns.get(f.value.id)
+    return isinstance(v, ast.Call) and norm(v.func) in ("logging.getLogger", "getLogger")
 
 
 def _is_lazy_init(func, attr_node):
